@@ -48,7 +48,7 @@ RunningFams == {"11", "12", "110", "111", "41", "42", "440", "441", "442", "443"
 NoFault == [kind |-> "none", off |-> 0, fam |-> "", pending |-> FALSE]
 
 GInit == [hbf |-> 1, page |-> 0, fsm |-> "IHW", n |-> 0, rbc |-> 0, last |-> NoTdh, open |-> FALSE, sod |-> TRUE,
-          cdwDone |-> FALSE, dataSeen |-> FALSE, done |-> FALSE, cur |-> 0, poff |-> 0, stop |-> 0, padf |-> FALSE]
+          cdwDone |-> FALSE, cu |-> 0, dataSeen |-> FALSE, done |-> FALSE, cur |-> 0, poff |-> 0, stop |-> 0, padf |-> FALSE]
 Init == /\ g = [l \in Links |-> GInit] /\ chk = [l \in Links |-> LinkInit] /\ stream = << >> /\ errs = << >>
         /\ fault = NoFault /\ noff = 0
 
@@ -184,7 +184,7 @@ WordFaults(l, w) ==
    \cup (IF id = ID_DDW0 THEN {[kind |-> "ddw0_id", fam |-> IdFam(s), w |-> [w EXCEPT ![10] = 229]],
                                [kind |-> "ddw0_index", fam |-> "60", w |-> [w EXCEPT ![9] = 16]],
                                [kind |-> "ddw0_reserved", fam |-> "60", w |-> [w EXCEPT ![8] = 1]]} ELSE {})
-   \cup (IF id = ID_CDW /\ ck.cdw.has THEN {[kind |-> "cdw_user_changed_index_not_0", fam |-> "81", w |-> [w EXCEPT ![1] = @ + 1]]} ELSE {})
+   \cup (IF id = ID_CDW /\ ck.cdw.has /\ CdwIdx(w) # 0 /\ ck.cdw.user = CdwUser(w) THEN {[kind |-> "cdw_user_changed_index_not_0", fam |-> "81", w |-> [w EXCEPT ![1] = @ + 1]]} ELSE {})
    \cup (IF IsDataId(id) THEN {[kind |-> "dw_id_invalid", fam |-> "70", w |-> [w EXCEPT ![10] = 41]],
                                [kind |-> "dw_lane_inactive", fam |-> IF Ob THEN "71" ELSE "72", w |-> [w EXCEPT ![10] = InactiveId]]} ELSE {})
    \cup (IF IsDataId(id) /\ Ob THEN {[kind |-> "dw_ob_input7", fam |-> "73", w |-> [w EXCEPT ![10] = 71]]} ELSE {})
@@ -211,6 +211,7 @@ AddWordWith(l, w, wreal, flt) ==
       /\ g' = [g EXCEPT ![l].n = @ + 1, ![l].fsm = Succ(g[l].fsm, w), ![l].sod = res.sod,
                         ![l].last = IF Id(w) = ID_TDH THEN TdhRec(w) ELSE @,
                         ![l].cdwDone = IF Id(w) = ID_CDW THEN TRUE ELSE @,
+                        ![l].cu = IF Id(w) = ID_CDW THEN w[1] ELSE @,
                         ![l].dataSeen = IF IsDataId(Id(w)) \/ Id(w) = ID_CDW THEN TRUE ELSE @]
 AddWord(l, w) == \/ AddWordWith(l, w, w, fault)
                  \/ /\ Faults /\ fault.kind = "none" /\ Its
@@ -231,7 +232,11 @@ EmitTdh(l) ==
            IN AddWord(l, MkTdh(tt, internal, nd, cont, bc, OrbitOf(h)))
 
 \* a calibration data word directly after the packet's first TDH - also the continuation TDH of a continuation page
-EmitCdw(l) == g[l].open /\ g[l].n + 1 < MaxWords /\ g[l].fsm \in {"DATA", "c_DATA"} /\ ~g[l].dataSeen /\ ~g[l].cdwDone /\ AddWord(l, MkCdw(9, g[l].hbf))
+\* (its user field is one of two values, its index 0 or the HBF number: the user field may only change in a word whose index is 0 - g[l].cu is the link's last user field)
+EmitCdw(l) == /\ g[l].open /\ g[l].n + 1 < MaxWords /\ g[l].fsm \in {"DATA", "c_DATA"} /\ ~g[l].dataSeen /\ ~g[l].cdwDone
+              /\ \E u \in {9, 10}, idx \in {0, g[l].hbf} :
+                    /\ (g[l].cu # 0 /\ g[l].cu # u) => idx = 0
+                    /\ AddWord(l, MkCdw(u, idx))
 EmitData(l) == g[l].open /\ g[l].n + 1 < MaxWords /\ g[l].fsm \in {"DATA", "c_DATA"} /\ \E id \in LaneIds : AddWord(l, MkData(id, 160 + (id % 32)))
 EmitTdt(l) == g[l].open /\ g[l].fsm \in {"DATA", "c_DATA"}
               /\ \E d \in {0, 1} : (d = 0 => g[l].page + 1 < MaxPages) /\ AddWord(l, MkTdt(d))
